@@ -7,33 +7,46 @@ sessions, redefined under the same name in the same session, or its code object 
 run the new code rather than returning values cached by the old one, and a still-referenced older
 definition keeps returning its own values.  Unchanged code keeps its cache across sessions.
 
-Model: `JoblibModel.FuncCode` — one function identifier in one cache directory: the live function
-objects of the current process (each with its current code object), the `MemorizedFunc` wrappers
-(each with its cached source, `func_code_info`), the per-process tables `_FUNCTION_HASHES` /
-`_FUNC_CODE_WRITERS`, the on-disk `func_code.py` (missing / unreadable / readable-but-garbled / a
-source text) and the entries stored beside it; `_check_previous_func_code`, `_write_func_code`,
-`clear` as the code has them.  What is compared on disk is the SOURCE TEXT only, exactly (the
-`# first line:` comment is stripped; the line number serves the collision warnings).
-`Cfg.fixed` is the code WITH fixes/F10-same-name-redefinition.diff (committed) and
-fixes/F38-code-swap.diff; `⟨false, _⟩` is the tree before the F10 repair, `⟨true, false⟩` the tree
-before the F38 repair.
+Model: `JoblibModel.FuncCode` — one function identifier cached in ANY NUMBER of cache locations
+(several `Memory` objects, on different directories or on the same one): the live function objects
+of the current process (each with its current code object), the `MemorizedFunc` wrappers (each
+belongs to one location — the string `store_backend.location` and the directory it denotes — and
+has its cached source, `func_code_info`), the PROCESS-GLOBAL tables `_FUNCTION_HASHES` (keyed by
+the function object alone) and `_FUNC_CODE_WRITERS` (keyed by the location string), and per
+directory the on-disk `func_code.py` (missing / unreadable / readable-but-garbled / a source text)
+and the entries stored beside it; `_check_previous_func_code`, `_write_func_code`, `clear`,
+`Memory.clear` as the code has them.  What is compared on disk is the SOURCE TEXT only, exactly
+(the `# first line:` comment is stripped; the line number serves the collision warnings).
+`Cfg.fixed` is the code as it is in the tree (WITH fixes/F10-same-name-redefinition.diff and
+fixes/F38-code-swap.diff); `{ Cfg.fixed with writerCheck := false }` is the tree before the F10
+repair, `{ … infoIdUpdate := false }` the tree before the F38 repair, `{ … writerKeyHasLocation :=
+false }` a seeded regression (`writer_key = self.func_id`), `Cfg.resolved` the tree with the
+candidate repair fixes/F46-writer-key-realpath.diff.
 
 Quantifier reached: EVERY history (any length) over {execute a `def`/`lambda` creating a new
-function object with any source text; wrap a live function once more (`memory.cache(f)` again);
-assign ANY code object to a live function's `__code__` (swap, swap back, any number of times);
-call / `check_call_in_cache` any live wrapper with any argument; `MemorizedFunc.clear`;
-`Memory.clear`; TRUNCATE `func_code.py` at any point of the history (unreadable: cut inside the
-header or a multi-byte character; garbled: cut anywhere else); start a fresh process}, every
-number of live objects, wrappers and versions, every value function `sem`.
+function object with any source text, cached at any location; wrap a live function once more
+(`memory.cache(f)` again) with a `Memory` object of ANY location — the same function object may be
+cached at several; assign ANY code object to a live function's `__code__` (swap, swap back, any
+number of times); call / `check_call_in_cache` any live wrapper with any argument;
+`MemorizedFunc.clear`; `Memory.clear` of any location; TRUNCATE `func_code.py` of any location at
+any point of the history (unreadable: cut inside the header or a multi-byte character; garbled: cut
+anywhere else); start a fresh process}, every number of locations, live objects, wrappers and
+versions, every value function `sem`.
 Sessions are sequential.  Not in the model: two processes at once (C11), source texts that do not
 determine the behaviour (closures / defaults differing at equal text — outside the domain of the
-property), dead function objects leaving `_FUNCTION_HASHES` (weak references).
+property), dead function objects leaving `_FUNCTION_HASHES` (weak references), one location string
+denoting two directories in one process (a relative path and `os.chdir`).
 
-ONE fault is excluded (`NoDelete`): `func_code.py` DELETED while entries remain (an interrupted
-`clear`, or a user): the code then takes the "first use" branch, writes the current source and
-keeps the entries — they are served to the edited function (`deleted_func_code_counterexample`,
-a known finding: telling "first use" from "file lost" needs a listing the store API does not
-have, and wiping on first use would race with concurrent first callers).
+TWO exclusions:
+* `NoDelete`: `func_code.py` DELETED while entries remain (an interrupted `clear`, or a user): the
+  code then takes the "first use" branch, writes the current source and keeps the entries — they
+  are served to the edited function (`deleted_func_code_counterexample`, a known finding, F39).
+* `Canonical` (F46, new; only for the tree as it is, not for `Cfg.resolved`): every directory is
+  addressed under ONE spelling.  `_FUNC_CODE_WRITERS` is keyed by the location STRING: with
+  `Memory(d)` and `Memory(d + "/.")` in one process the write of one does not pop the writer entry of
+  the other, and the F10 failure is back (`aliased_location_counterexample`).  With the writer key
+  resolved to the directory the theorem holds without this hypothesis
+  (`value_from_own_version_resolved`).
 -/
 namespace C12
 open JoblibModel.FuncCode
@@ -41,114 +54,169 @@ open JoblibModel.FilterArgs (dget)
 
 variable {R : Type}
 
-/-- **Every call returns the value its own version computes.**  In every history run from an empty
-cache directory that never deletes `func_code.py`, every call through a live wrapper whose
-function's current code object has source `k`, with argument `a`, returns `sem k a` — whether the
-call was served from the cache or executed, whatever other versions of the same-named function were
-defined, called, swapped in and out, cleared, or whatever truncation `func_code.py` suffered before,
-in this process or in earlier ones (`Correct` at every step: `AllCorrect`). -/
-theorem value_from_own_version (sem : Src → Nat → R) (ops : List Op) (hnd : ∀ op ∈ ops, NoDelete op) :
+/-- **Every call returns the value its own version computes — at every location.**  In every
+history run from empty cache directories that never deletes a `func_code.py` and addresses every
+directory under one spelling, every call through a live wrapper — of whatever `Memory` object, at
+whatever location — whose function's current code object has source `k`, with argument `a`, returns
+`sem k a` — whether the call was served from the cache or executed, whatever other versions of the
+same-named function were defined, called, swapped in and out, cleared, at this location or at any
+other, or whatever truncation any `func_code.py` suffered before, in this process or in earlier
+ones (`Correct` at every step: `AllCorrect`). -/
+theorem value_from_own_version (sem : Src → Nat → R) (ops : List Op) (hnd : ∀ op ∈ ops, NoDelete op)
+    (hcan : ∀ op ∈ ops, Canonical op) :
     AllCorrect Cfg.fixed sem (init : State R) ops :=
-  allCorrect_of_inv ops _ (inv_init sem) hnd
+  allCorrect_of_inv good_fixed ops _ (inv_init _ sem) hnd fun op h => keyOK_of_canonical (hcan op h)
 
 /-- The same from any state the repaired code can have produced (the invariant `Inv`). -/
-theorem value_from_own_version_from (sem : Src → Nat → R) (st : State R) (hi : Inv sem st)
-    (ops : List Op) (hnd : ∀ op ∈ ops, NoDelete op) : AllCorrect Cfg.fixed sem st ops :=
-  allCorrect_of_inv ops st hi hnd
+theorem value_from_own_version_from (sem : Src → Nat → R) (st : State R) (hi : Inv Cfg.fixed sem st)
+    (ops : List Op) (hnd : ∀ op ∈ ops, NoDelete op) (hcan : ∀ op ∈ ops, Canonical op) :
+    AllCorrect Cfg.fixed sem st ops :=
+  allCorrect_of_inv good_fixed ops st hi hnd fun op h => keyOK_of_canonical (hcan op h)
 
 /-- … and every reachable state has that invariant. -/
-theorem reachable_inv (sem : Src → Nat → R) (ops : List Op) (hnd : ∀ op ∈ ops, NoDelete op) :
-    Inv sem (exec Cfg.fixed sem (init : State R) ops) :=
-  inv_exec ops _ (inv_init sem) hnd
+theorem reachable_inv (sem : Src → Nat → R) (ops : List Op) (hnd : ∀ op ∈ ops, NoDelete op)
+    (hcan : ∀ op ∈ ops, Canonical op) :
+    Inv Cfg.fixed sem (exec Cfg.fixed sem (init : State R) ops) :=
+  inv_exec good_fixed ops _ (inv_init _ sem) hnd fun op h => keyOK_of_canonical (hcan op h)
 
-/-- **Unchanged code keeps its cache.**  Take any history `pre` and `mid` in which every definition
-and every swapped-in code object has the one source text `k` and nothing is cleared or damaged
-(`Quiet k`: any number of re-executions of the same `def`, further wrappers, swaps between code
-objects of that text, fresh processes, calls and checks with any arguments).  If a wrapper `w` is
-called with `a` after `pre`, then after `mid` a call of ANY live wrapper `w'` (same process or a later
-one) with `a` is served from the cache: the body is not executed, the value is `sem k a`, and the
-stored code and entries are left exactly as they were. -/
-theorem unchanged_code_keeps_cache (sem : Src → Nat → R) (k : Src) (pre mid : List Op) (w w' : Nat)
-    (a : Nat) (hpre : ∀ op ∈ pre, Quiet k op) (hmid : ∀ op ∈ mid, Quiet k op)
-    (hlive : (lookup (exec Cfg.fixed sem (init : State R) pre) w).isSome)
-    (hlive' : (lookup (exec Cfg.fixed sem (init : State R) (pre ++ .call w a :: mid)) w').isSome) :
+/-- With the candidate repair of F46 (the writer key is the resolved directory) the first theorem
+needs no hypothesis on how the directories are spelled. -/
+theorem value_from_own_version_resolved (sem : Src → Nat → R) (ops : List Op)
+    (hnd : ∀ op ∈ ops, NoDelete op) : AllCorrect Cfg.resolved sem (init : State R) ops :=
+  allCorrect_of_inv good_resolved ops _ (inv_init _ sem) hnd fun op _ => keyOK_resolved op
+
+/-- **Unchanged code keeps its cache, at every location.**  Fix a directory `d`.  Take any history
+`pre` and `mid` in which every definition and every swapped-in code object has the one source text
+`k` and nothing is cleared or damaged AT `d` (`QuietAt k d`: any number of re-executions of the same
+`def`, further wrappers at any location, swaps between code objects of that text, fresh processes,
+calls and checks with any arguments at any location — and, at OTHER locations, `Memory.clear()` and
+truncated `func_code.py` files).  If a wrapper `w` at `d` is called with `a` after `pre`, then after
+`mid` a call of ANY live wrapper `w'` at `d` (same process or a later one) with `a` is served from
+the cache: the body is not executed, the value is `sem k a`, and no directory is written to. -/
+theorem unchanged_code_keeps_cache (sem : Src → Nat → R) (k : Src) (d : Loc) (pre mid : List Op)
+    (w w' : Nat) (a : Nat) (hpre : ∀ op ∈ pre, QuietAt k d op) (hmid : ∀ op ∈ mid, QuietAt k d op)
+    (hlive : ∃ t, lookup (exec Cfg.fixed sem (init : State R) pre) w = some t ∧ t.dir = d)
+    (hlive' : ∃ t, lookup (exec Cfg.fixed sem (init : State R) (pre ++ .call w a :: mid)) w' = some t ∧
+      t.dir = d) :
     let st := exec Cfg.fixed sem (init : State R) (pre ++ .call w a :: mid)
     (step Cfg.fixed sem st (.call w' a)).1 = .value (sem k a) false ∧
-      (step Cfg.fixed sem st (.call w' a)).2.entries = st.entries ∧
-      (step Cfg.fixed sem st (.call w' a)).2.code = st.code := by
+      (step Cfg.fixed sem st (.call w' a)).2.disk = st.disk := by
   intro st
-  have nd : ∀ {l : List Op}, (∀ op ∈ l, Quiet k op) → ∀ op ∈ l, NoDelete op :=
+  obtain ⟨t, hl, hd⟩ := hlive
+  obtain ⟨t', hl', hd'⟩ := hlive'
+  have nd : ∀ {l : List Op}, (∀ op ∈ l, QuietAt k d op) → ∀ op ∈ l, NoDelete op :=
     fun h op ho => quiet_noDelete (h op ho)
-  have hi0 := inv_exec (sem := sem) pre _ (inv_init sem) (nd hpre)
-  obtain ⟨hs0, _⟩ := quiet_exec (sem := sem) pre _ (inv_init sem) (allSrc_init k) hpre
+  have cn : ∀ {l : List Op}, (∀ op ∈ l, QuietAt k d op) → ∀ op ∈ l, KeyOK Cfg.fixed op :=
+    fun h op ho => keyOK_of_canonical (quiet_canonical (h op ho))
+  have hi0 := inv_exec good_fixed (sem := sem) pre _ (inv_init _ sem) (nd hpre) (cn hpre)
+  obtain ⟨hs0, _⟩ := quiet_exec (sem := sem) pre _ (inv_init _ sem) (allSrc_init k d) hpre
   -- the call of `w` after `pre`
-  have hi1 := (step_spec hi0 (.call w a) trivial).1
-  obtain ⟨hs1, _⟩ := quiet_step hi0 hs0 (op := .call w a) trivial
-  cases hl : lookup (exec Cfg.fixed sem init pre) w with
-  | none => rw [hl] at hlive; cases hlive
-  | some p =>
-    obtain ⟨o, cur, named, ic⟩ := p
-    have hk : cur.2 = k := hs0.1 o cur named (lookup_live hl)
-    have hent : dget a (step Cfg.fixed sem (exec Cfg.fixed sem init pre) (.call w a)).2.entries
-        = some (sem k a) := by
-      have hc := (step_spec hi0 (.call w a) trivial).2
-      simp only [Correct, hl, hk] at hc
-      simp only [step, hl, isInCache] at hc ⊢
-      cases hr : (if (checkPrevious Cfg.fixed (exec Cfg.fixed sem init pre) w o cur named ic).1 = true then
-          dget a (checkPrevious Cfg.fixed (exec Cfg.fixed sem init pre) w o cur named ic).2.entries
-          else none) with
-      | some v =>
-        simp only [hr] at hc ⊢
-        rcases hc with hc | hc
-        · simp only [Out.value.injEq, and_true] at hc
-          subst hc
-          split at hr
-          · exact hr
-          · cases hr
-        · simp at hc
-      | none =>
-        simp only [hk]
-        exact JoblibModel.FilterArgs.dget_dset_self _ _ _
-    -- `mid`
-    obtain ⟨hs2, keep⟩ := quiet_exec (sem := sem) mid _ hi1 hs1 hmid
-    have hex : st = exec Cfg.fixed sem (step Cfg.fixed sem (exec Cfg.fixed sem init pre) (.call w a)).2 mid := by
-      show exec Cfg.fixed sem init (pre ++ .call w a :: mid) = _
-      rw [exec_append]; rfl
-    have hi2 : Inv sem st := by rw [hex]; exact inv_exec (sem := sem) mid _ hi1 (nd hmid)
-    have he2 : dget a st.entries = some (sem k a) := by rw [hex]; exact keep a _ hent
-    have hs2' : AllSrc k st := by rw [hex]; exact hs2
-    cases hl' : lookup st w' with
-    | none => rw [hl'] at hlive'; cases hlive'
-    | some p' =>
-      obtain ⟨o', cur', named', ic'⟩ := p'
-      have hk' : cur'.2 = k := hs2'.1 o' cur' named' (lookup_live hl')
-      have hc2 : st.code = .ok cur'.2 := by
-        rcases hs2'.2 with hm | ho
-        · rw [(hi2.missing hm).1] at he2; simp [dget] at he2
-        · rw [hk']; exact ho
-      exact call_hit hi2 hl' hc2 he2
+  have hi1 := (step_spec good_fixed hi0 (.call w a) trivial trivial).1
+  obtain ⟨hs1, _⟩ := quiet_step good_fixed hi0 hs0 (op := .call w a) trivial
+  have hk : t.cur.2 = k := hs0.1 t.o t.cur t.named (lookup_live hl)
+  have hent : dget a (dirAt (step Cfg.fixed sem (exec Cfg.fixed sem init pre) (.call w a)).2 d).entries
+      = some (sem k a) := by
+    have hc := (step_spec good_fixed hi0 (.call w a) trivial trivial).2
+    simp only [Correct, hl, hk] at hc
+    simp only [step, hl, isInCache] at hc ⊢
+    cases hr : (if (checkPrevious Cfg.fixed (exec Cfg.fixed sem init pre) t).1 = true then
+        dget a (dirAt (checkPrevious Cfg.fixed (exec Cfg.fixed sem init pre) t).2 t.dir).entries
+        else none) with
+    | some v =>
+      simp only [hr] at hc ⊢
+      rcases hc with hc | hc
+      · simp only [Out.value.injEq, and_true] at hc
+        subst hc
+        split at hr
+        · rw [← hd]; exact hr
+        · cases hr
+      · simp at hc
+    | none =>
+      simp only [hk, ← hd]
+      simp [dirAt, JoblibModel.FilterArgs.dget_dset_self]
+  -- `mid`
+  obtain ⟨hs2, keep⟩ := quiet_exec (sem := sem) mid _ hi1 hs1 hmid
+  have hex : st = exec Cfg.fixed sem (step Cfg.fixed sem (exec Cfg.fixed sem init pre) (.call w a)).2 mid := by
+    show exec Cfg.fixed sem init (pre ++ .call w a :: mid) = _
+    rw [exec_append]; rfl
+  have hi2 : Inv Cfg.fixed sem st := by
+    rw [hex]; exact inv_exec good_fixed (sem := sem) mid _ hi1 (nd hmid) (cn hmid)
+  have he2 : dget a (dirAt st d).entries = some (sem k a) := by rw [hex]; exact keep a _ hent
+  have hs2' : AllSrc k d st := by rw [hex]; exact hs2
+  have hk' : t'.cur.2 = k := hs2'.1 t'.o t'.cur t'.named (lookup_live hl')
+  have hc2 : (dirAt st t'.dir).code = .ok t'.cur.2 := by
+    rw [hd']
+    rcases hs2'.2 with hm | ho
+    · have := ((hi2.dirs d).missing hm).1
+      simp only [cell] at this
+      rw [this] at he2; simp [dget] at he2
+    · rw [hk']; exact ho
+  exact call_hit good_fixed hi2 hl' hc2 (by rw [hd']; exact he2)
 
-/-- The step-level fact behind it, from any state with the invariant: stored code = the current
-code's source and the entry present ⇒ hit, nothing executed, code and entries unchanged. -/
-theorem hit_when_code_unchanged (sem : Src → Nat → R) (st : State R) (hi : Inv sem st) (w : Nat)
-    (o : Obj) (cur : CodeId) (n : Bool) (ic : InfoCache) (a : Nat) (r : R)
-    (hl : lookup st w = some (o, cur, n, ic)) (hc : st.code = .ok cur.2)
-    (he : dget a st.entries = some r) :
+/-- The step-level fact behind it, from any state with the invariant: stored code of the wrapper's
+location = the current code's source and the entry present there ⇒ hit, nothing executed, no
+directory written to. -/
+theorem hit_when_code_unchanged (sem : Src → Nat → R) (st : State R) (hi : Inv Cfg.fixed sem st)
+    (w : Nat) (t : Target) (a : Nat) (r : R)
+    (hl : lookup st w = some t) (hc : (dirAt st t.dir).code = .ok t.cur.2)
+    (he : dget a (dirAt st t.dir).entries = some r) :
     (step Cfg.fixed sem st (.call w a)).1 = .value r false ∧
-      (step Cfg.fixed sem st (.call w a)).2.entries = st.entries ∧
-      (step Cfg.fixed sem st (.call w a)).2.code = st.code :=
-  call_hit hi hl hc he
+      (step Cfg.fixed sem st (.call w a)).2.disk = st.disk :=
+  call_hit good_fixed hi hl hc he
+
+/-- **Locations are independent.**  A step that works on another directory — a call, check or
+`clear` through a wrapper of another location, `Memory.clear()` or a fault there — or on none
+(definitions, wrappers, swaps, a fresh process) leaves directory `d` exactly as it was:
+`func_code.py` and every entry.  For EVERY version of the code (`cfg` arbitrary) and every state. -/
+theorem locations_independent (cfg : Cfg) (sem : Src → Nat → R) (st : State R) (op : Op) (d : Loc)
+    (h : opDir st op ≠ some d) :
+    (dirAt (step cfg sem st op).2 d).code = (dirAt st d).code ∧
+      (dirAt (step cfg sem st op).2 d).entries = (dirAt st d).entries := by
+  rw [step_frame cfg sem st op d h]; exact ⟨rfl, rfl⟩
+
+/-- **The in-memory shortcut answers only for a directory that is this function's own** (the
+invariant the F10 repair established, now per location).  In every reachable state, whenever the
+`_FUNCTION_HASHES` / `_FUNC_CODE_WRITERS` branch of `_check_previous_func_code` answers True for a
+live wrapper `w` — at whatever location `w` caches —, `func_code.py` of THAT location is present,
+holds, if it still reads back as a source text at all (it may have been truncated since), the source
+of `w`'s function's current code object, and every entry stored at that location is the value this
+source computes. -/
+theorem shortcut_implies_directory_is_own (sem : Src → Nat → R) (ops : List Op)
+    (hnd : ∀ op ∈ ops, NoDelete op) (hcan : ∀ op ∈ ops, Canonical op) (w : Nat) (t : Target) :
+    let st := exec Cfg.fixed sem (init : State R) ops
+    lookup st w = some t → shortcut Cfg.fixed st t = true →
+      (dirAt st t.dir).code ≠ .missing ∧ (∀ s, (dirAt st t.dir).code = .ok s → s = t.cur.2) ∧
+        ∀ a r, dget a (dirAt st t.dir).entries = some r → r = sem t.cur.2 a := by
+  intro st hl hs
+  have hi := reachable_inv sem ops hnd hcan
+  have hp := shortcut_post good_fixed hi (lookup_tok hi hl).2 hs
+  exact ⟨hp.present, hp.code, hp.vals⟩
+
+/-- … and when `func_code.py` of that location was not truncated in the history, it holds exactly
+this function's own current source. -/
+theorem shortcut_implies_stored_code_is_own (sem : Src → Nat → R) (ops : List Op)
+    (hnd : ∀ op ∈ ops, NoDelete op) (hcan : ∀ op ∈ ops, Canonical op) (w : Nat) (t : Target)
+    (hdam : ∀ op ∈ ops, NoDamageAt t.dir op) :
+    let st := exec Cfg.fixed sem (init : State R) ops
+    lookup st w = some t → shortcut Cfg.fixed st t = true →
+      (dirAt st t.dir).code = .ok t.cur.2 := by
+  intro st hl hs
+  obtain ⟨h1, h2, _⟩ := shortcut_implies_directory_is_own sem ops hnd hcan w t hl hs
+  rcases intact_exec Cfg.fixed sem t.dir ops _ (intact_init t.dir) hdam with hm | ⟨s, ho⟩
+  · exact absurd hm h1
+  · rw [ho, h2 s ho]
 
 /-! ## Non-vacuity: a history with two live versions, swaps there and back, two wrappers of one
-function, truncated `func_code.py`, a fresh process and a clear -/
+function, truncated `func_code.py`, a fresh process and a clear; then the same function object at
+two locations, a `Memory.clear()` and a fault at one of them -/
 
 /-- versions 1 and 2 of `f` return `(version, arg)` -/
 def semEx : Src → Nat → Nat × Nat := fun k a => (k, a)
 
 def histEx : List Op :=
-  [.define 1 1 true, .call 1 7, .define 2 2 true, .call 2 7, .call 1 7, .check 2 7, .call 2 7,
-   .swap 1 (2, 2), .call 1 7, .swap 1 (1, 1), .call 1 7, .wrap 5 1, .call 5 7,
-   .damage .unreadable, .call 2 7, .call 2 7, .fresh, .define 3 1 true, .damage .other, .call 3 7,
+  [.define 1 1 true 0, .call 1 7, .define 2 2 true 0, .call 2 7, .call 1 7, .check 2 7, .call 2 7,
+   .swap 1 (2, 2), .call 1 7, .swap 1 (1, 1), .call 1 7, .wrap 5 1 0 0, .call 5 7,
+   .damage 0 .unreadable, .call 2 7, .call 2 7, .fresh, .define 3 1 true 0, .damage 0 .other, .call 3 7,
    .clearFn 3, .call 3 7]
 
 example : run Cfg.fixed semEx init histEx =
@@ -158,19 +226,116 @@ example : run Cfg.fixed semEx init histEx =
      .value (1, 7) true] := by decide
 
 example : ∀ op ∈ histEx, NoDelete op := by decide
+example : ∀ op ∈ histEx, Canonical op := by decide
 
-example : ∀ op ∈ [Op.define 1 5 true, .call 1 0, .swap 1 (9, 5), .fresh, .define 2 5 true, .wrap 3 2,
-    .check 3 0], Quiet 5 op := by decide
+/-- Function 1 (version 1) is cached at locations 0 and 1 (wrappers 1 and 5), function 2 (version 2)
+at location 1 (wrapper 2) and, later, at location 0 (wrapper 6).  Location 1 changes hands twice;
+location 0 keeps version 1's entry through all of it, through `Memory.clear()` of location 1 and
+through a truncated `func_code.py` there — until version 2 is called at location 0 as well. -/
+def histMulti : List Op :=
+  [.define 1 1 true 0, .wrap 5 1 1 1, .call 1 7, .call 5 7, .define 2 2 true 1, .call 2 7, .call 5 7,
+   .call 1 7, .clearAll 1, .call 1 7, .call 5 7, .damage 1 .other, .call 5 7, .call 1 7, .fresh,
+   .define 3 1 true 0, .call 3 7, .wrap 6 3 1 1, .call 6 7, .define 4 2 true 0, .call 4 7, .call 3 7,
+   .call 6 7]
+
+example : run Cfg.fixed semEx init histMulti =
+    [.done, .done, .value (1, 7) true, .value (1, 7) true, .done, .value (2, 7) true, .value (1, 7) true,
+     .value (1, 7) false, .done, .value (1, 7) false, .value (1, 7) true, .done, .value (1, 7) false,
+     .value (1, 7) false, .done, .done, .value (1, 7) false, .done, .value (1, 7) true, .done,
+     .value (2, 7) true, .value (1, 7) true, .value (1, 7) false] := by decide
+
+example : ∀ op ∈ histMulti, NoDelete op := by decide
+example : ∀ op ∈ histMulti, Canonical op := by decide
+
+example : ∀ op ∈ [Op.define 1 5 true 0, .call 1 0, .swap 1 (9, 5), .wrap 4 1 1 1, .call 4 0, .clearAll 1,
+    .damage 2 .other, .fresh, .define 2 5 true 1, .wrap 3 2 0 0, .check 3 0], QuietAt 5 0 op := by decide
+
+/-- The shortcut does answer True in such histories (second call of wrapper 1), also for a function
+object cached at two locations (wrapper 5, second call). -/
+example :
+    let st := exec Cfg.fixed semEx (init : State (Nat × Nat))
+      [.define 1 1 true 0, .wrap 5 1 1 1, .call 1 7, .call 5 7]
+    (lookup st 1).map (shortcut Cfg.fixed st) = some true ∧
+      (lookup st 5).map (shortcut Cfg.fixed st) = some true := by decide
+
+/-! ## the writer key without the location (a seeded regression) -/
+
+/-- `writer_key = self.func_id`: version 1 is cached at location 1 (argument 3); the file is edited;
+in the next session version 2 is called through a `Memory` at location 0, then through one at
+location 1 — and is served version 1's value there: the writer slot filled at location 0 answers
+for location 1, whose `func_code.py` is never read. -/
+theorem writer_key_without_location_counterexample :
+    run { Cfg.fixed with writerKeyHasLocation := false } semEx init
+        [.define 1 1 true 1, .call 1 3, .fresh, .define 2 2 true 0, .wrap 5 2 1 1, .call 2 3, .call 5 3] =
+      [.done, .value (1, 3) true, .done, .done, .done, .value (2, 3) true, .value (1, 3) false] := by
+  decide
+
+/-- The same in one process (the module re-imported: both definitions alive). -/
+theorem writer_key_without_location_one_process_counterexample :
+    run { Cfg.fixed with writerKeyHasLocation := false } semEx init
+        [.define 1 1 true 1, .call 1 3, .define 2 2 true 0, .wrap 5 2 1 1, .call 2 3, .call 5 3] =
+      [.done, .value (1, 3) true, .done, .done, .value (2, 3) true, .value (1, 3) false] := by
+  decide
+
+theorem writer_key_without_location_value_from_own_version_false :
+    ¬ ∀ ops : List Op, (∀ op ∈ ops, NoDelete op) → (∀ op ∈ ops, Canonical op) →
+        AllCorrect { Cfg.fixed with writerKeyHasLocation := false } semEx (init : State (Nat × Nat)) ops := by
+  intro h
+  exact absurd (h [.define 1 1 true 1, .call 1 3, .fresh, .define 2 2 true 0, .wrap 5 2 1 1, .call 2 3,
+    .call 5 3] (by decide) (by decide)) (by decide)
+
+/-- The code as it is, on the two histories. -/
+theorem fixed_on_the_writer_key_witnesses :
+    run Cfg.fixed semEx init
+        [.define 1 1 true 1, .call 1 3, .fresh, .define 2 2 true 0, .wrap 5 2 1 1, .call 2 3, .call 5 3] =
+      [.done, .value (1, 3) true, .done, .done, .done, .value (2, 3) true, .value (2, 3) true] ∧
+    run Cfg.fixed semEx init
+        [.define 1 1 true 1, .call 1 3, .define 2 2 true 0, .wrap 5 2 1 1, .call 2 3, .call 5 3] =
+      [.done, .value (1, 3) true, .done, .done, .value (2, 3) true, .value (2, 3) true] := by
+  decide
+
+/-! ## F46 — one directory under two spellings (the tree as it is) -/
+
+/-- F46: `Memory(d)` and `Memory(d + "/.")` (location strings 1 and 9 of directory 1).  Version 1 is
+cached through the first, the same-named version 2 through the second; the calls
+`c1(1), c2(1), c1(1)` return `(1,1), (2,1), (2,1)`: version 2's write popped the writer entry of
+string 9, not that of string 1, so version 1's shortcut still answers True — F10 again. -/
+theorem aliased_location_counterexample :
+    run Cfg.fixed semEx init
+        [.define 1 1 true 1, .define 2 2 true 7, .wrap 5 2 9 1, .call 1 1, .call 5 1, .call 1 1] =
+      [.done, .done, .done, .value (1, 1) true, .value (2, 1) true, .value (2, 1) false] := by
+  decide
+
+/-- Without `Canonical` the first theorem is false of the tree as it is. -/
+theorem aliased_location_value_from_own_version_false :
+    ¬ ∀ ops : List Op, (∀ op ∈ ops, NoDelete op) →
+        AllCorrect Cfg.fixed semEx (init : State (Nat × Nat)) ops := by
+  intro h
+  exact absurd (h [.define 1 1 true 1, .define 2 2 true 7, .wrap 5 2 9 1, .call 1 1, .call 5 1, .call 1 1]
+    (by decide)) (by decide)
+
+/-- With the writer key resolved to the directory (the candidate repair) the same history is right. -/
+theorem resolved_on_the_aliased_witness :
+    run Cfg.resolved semEx init
+        [.define 1 1 true 1, .define 2 2 true 7, .wrap 5 2 9 1, .call 1 1, .call 5 1, .call 1 1] =
+      [.done, .done, .done, .value (1, 1) true, .value (2, 1) true, .value (1, 1) true] := by
+  decide
 
 /-! ## F38 — `func_code_info` before the repair -/
+
+/-- The tree before the F38 repair. -/
+def cfgF38 : Cfg := { Cfg.fixed with infoIdUpdate := false }
+
+/-- The tree before the F10 repair. -/
+def cfgF10 : Cfg := { Cfg.fixed with writerCheck := false }
 
 /-- F38: `f.__code__ = A.__code__; cf(0)`, `f.__code__ = B.__code__; cf(0)`,
 `f.__code__ = A.__code__; cf(0)` returns B's value the third time: `_func_code_id` keeps the first
 code object ever seen (A's), so after the swap back the cached source (B's, read at the second
 call) is not refreshed, matches the stored code and B's entry is served. -/
 theorem old_F38_counterexample :
-    run ⟨true, false⟩ semEx init
-        [.define 1 9 true, .swap 1 (100, 1), .call 1 0, .swap 1 (101, 2), .call 1 0,
+    run cfgF38 semEx init
+        [.define 1 9 true 0, .swap 1 (100, 1), .call 1 0, .swap 1 (101, 2), .call 1 0,
          .swap 1 (100, 1), .call 1 0] =
       [.done, .done, .value (1, 0) true, .done, .value (2, 0) true, .done, .value (2, 0) false] := by
   decide
@@ -180,29 +345,29 @@ theorem old_F38_counterexample :
 A's code and stores A's value; the function then gets B's code again and wrapper 2 (whose own cache
 is right) finds "its" source on disk and is served A's value. -/
 theorem old_F38_two_wrappers_counterexample :
-    run ⟨true, false⟩ semEx init
-        [.define 1 1 true, .wrap 2 1, .call 1 0, .swap 1 (101, 2), .call 1 0, .swap 1 (1, 1),
-         .clearAll, .call 1 0, .swap 1 (101, 2), .call 2 0] =
+    run cfgF38 semEx init
+        [.define 1 1 true 0, .wrap 2 1 0 0, .call 1 0, .swap 1 (101, 2), .call 1 0, .swap 1 (1, 1),
+         .clearAll 0, .call 1 0, .swap 1 (101, 2), .call 2 0] =
       [.done, .done, .value (1, 0) true, .done, .value (2, 0) true, .done, .done, .value (1, 0) true,
        .done, .value (1, 0) false] := by
   decide
 
 theorem old_F38_value_from_own_version_false :
-    ¬ ∀ ops : List Op, (∀ op ∈ ops, NoDelete op) →
-        AllCorrect ⟨true, false⟩ semEx (init : State (Nat × Nat)) ops := by
+    ¬ ∀ ops : List Op, (∀ op ∈ ops, NoDelete op) → (∀ op ∈ ops, Canonical op) →
+        AllCorrect cfgF38 semEx (init : State (Nat × Nat)) ops := by
   intro h
-  exact absurd (h [.define 1 9 true, .swap 1 (100, 1), .call 1 0, .swap 1 (101, 2), .call 1 0,
-    .swap 1 (100, 1), .call 1 0] (by decide)) (by decide)
+  exact absurd (h [.define 1 9 true 0, .swap 1 (100, 1), .call 1 0, .swap 1 (101, 2), .call 1 0,
+    .swap 1 (100, 1), .call 1 0] (by decide) (by decide)) (by decide)
 
 /-- The repaired code on the two histories. -/
 theorem fixed_on_the_F38_witnesses :
     run Cfg.fixed semEx init
-        [.define 1 9 true, .swap 1 (100, 1), .call 1 0, .swap 1 (101, 2), .call 1 0,
+        [.define 1 9 true 0, .swap 1 (100, 1), .call 1 0, .swap 1 (101, 2), .call 1 0,
          .swap 1 (100, 1), .call 1 0] =
       [.done, .done, .value (1, 0) true, .done, .value (2, 0) true, .done, .value (1, 0) true] ∧
     run Cfg.fixed semEx init
-        [.define 1 1 true, .wrap 2 1, .call 1 0, .swap 1 (101, 2), .call 1 0, .swap 1 (1, 1),
-         .clearAll, .call 1 0, .swap 1 (101, 2), .call 2 0] =
+        [.define 1 1 true 0, .wrap 2 1 0 0, .call 1 0, .swap 1 (101, 2), .call 1 0, .swap 1 (1, 1),
+         .clearAll 0, .call 1 0, .swap 1 (101, 2), .call 2 0] =
       [.done, .done, .value (1, 0) true, .done, .value (2, 0) true, .done, .done, .value (1, 0) true,
        .done, .value (2, 0) true] := by
   decide
@@ -214,7 +379,7 @@ function (version 2) is called with both: the first call takes the "no func_code
 the new source, recomputes), the second is then served version 1's value. -/
 theorem deleted_func_code_counterexample :
     run Cfg.fixed semEx init
-        [.define 1 1 true, .call 1 0, .call 1 1, .damage .delete, .fresh, .define 2 2 true,
+        [.define 1 1 true 0, .call 1 0, .call 1 1, .damage 0 .delete, .fresh, .define 2 2 true 0,
          .call 2 0, .call 2 1] =
       [.done, .value (1, 0) true, .value (1, 1) true, .done, .done, .done, .value (2, 0) true,
        .value (1, 1) false] := by
@@ -223,12 +388,12 @@ theorem deleted_func_code_counterexample :
 /-- A truncated (unreadable or garbled) file in the same place is handled: everything is recomputed. -/
 theorem truncated_func_code_witness :
     run Cfg.fixed semEx init
-        [.define 1 1 true, .call 1 0, .call 1 1, .damage .unreadable, .fresh, .define 2 2 true,
+        [.define 1 1 true 0, .call 1 0, .call 1 1, .damage 0 .unreadable, .fresh, .define 2 2 true 0,
          .call 2 0, .call 2 1] =
       [.done, .value (1, 0) true, .value (1, 1) true, .done, .done, .done, .value (2, 0) true,
        .value (2, 1) true] ∧
     run Cfg.fixed semEx init
-        [.define 1 1 true, .call 1 0, .call 1 1, .damage .other, .fresh, .define 2 2 true,
+        [.define 1 1 true 0, .call 1 0, .call 1 1, .damage 0 .other, .fresh, .define 2 2 true 0,
          .call 2 0, .call 2 1] =
       [.done, .value (1, 0) true, .value (1, 1) true, .done, .done, .done, .value (2, 0) true,
        .value (2, 1) true] := by
@@ -240,30 +405,30 @@ theorem truncated_func_code_witness :
 `c1(1), c2(1), c1(1)` return `(1,1), (2,1), (2,1)`: the third call is answered by the
 `_FUNCTION_HASHES` shortcut with the entry version 2 stored. -/
 theorem old_F10_counterexample :
-    run ⟨false, true⟩ semEx init [.define 1 1 true, .define 2 2 true, .call 1 1, .call 2 1, .call 1 1] =
+    run cfgF10 semEx init [.define 1 1 true 0, .define 2 2 true 0, .call 1 1, .call 2 1, .call 1 1] =
       [.done, .done, .value (1, 1) true, .value (2, 1) true, .value (2, 1) false] := by decide
 
 /-- The first theorem is false of that tree. -/
 theorem old_value_from_own_version_false :
-    ¬ ∀ ops : List Op, (∀ op ∈ ops, NoDelete op) →
-        AllCorrect ⟨false, true⟩ semEx (init : State (Nat × Nat)) ops := by
+    ¬ ∀ ops : List Op, (∀ op ∈ ops, NoDelete op) → (∀ op ∈ ops, Canonical op) →
+        AllCorrect cfgF10 semEx (init : State (Nat × Nat)) ops := by
   intro h
-  exact absurd (h [.define 1 1 true, .define 2 2 true, .call 1 1, .call 2 1, .call 1 1] (by decide))
-    (by decide)
+  exact absurd (h [.define 1 1 true 0, .define 2 2 true 0, .call 1 1, .call 2 1, .call 1 1] (by decide)
+    (by decide)) (by decide)
 
 /-- A second shape of F10 (through `check_call_in_cache`). -/
 theorem old_F10_check_counterexample :
-    run ⟨false, true⟩ semEx init
-        [.define 1 1 true, .define 2 2 true, .call 1 1, .check 2 1, .call 1 1, .call 2 1] =
+    run cfgF10 semEx init
+        [.define 1 1 true 0, .define 2 2 true 0, .call 1 1, .check 2 1, .call 1 1, .call 2 1] =
       [.done, .done, .value (1, 1) true, .flag false, .value (1, 1) true, .value (1, 1) false] := by
   decide
 
 /-- The repaired code on the same two histories. -/
 theorem fixed_on_the_witnesses :
-    run Cfg.fixed semEx init [.define 1 1 true, .define 2 2 true, .call 1 1, .call 2 1, .call 1 1] =
+    run Cfg.fixed semEx init [.define 1 1 true 0, .define 2 2 true 0, .call 1 1, .call 2 1, .call 1 1] =
       [.done, .done, .value (1, 1) true, .value (2, 1) true, .value (1, 1) true] ∧
     run Cfg.fixed semEx init
-        [.define 1 1 true, .define 2 2 true, .call 1 1, .check 2 1, .call 1 1, .call 2 1] =
+        [.define 1 1 true 0, .define 2 2 true 0, .call 1 1, .check 2 1, .call 1 1, .call 2 1] =
       [.done, .done, .value (1, 1) true, .flag false, .value (1, 1) true, .value (2, 1) true] := by
   decide
 
